@@ -22,4 +22,5 @@ HOOK_COMMITS = [
     "verif hook: SharedHistory::verif_replace_current",
     "verif hooks: count validation runs; sticky forced outcomes",
     "verif hooks: RTR listener/stream exposure, rendezvous points in RtrStream::new and metrics",
+    "verif hooks: status/metrics renderers, PublishInfo re-export, injected RRDP outcome, LimitedDataRead exposure",
 ]
